@@ -146,41 +146,91 @@ class StagedEffects(RepoEffects):
 
 # ---- guards ---------------------------------------------------------------------------------
 
-def is_append_only_test(body, bb):
-    """block bb ends in a switch on `config.append_only == Some(true)`; returns (true_target, false_target) or None.
-    Recognised from resolved operands: PartialEq::eq(&<..>.append_only [ConfigFile], &promoted Some(true))."""
+def _ao_path(x):
+    """expression is a read of a field named append_only (ConfigFile.append_only reached through any access path)"""
+    return x[0] in ("path", "proj") and bool(x[2]) and x[2][-1] == "append_only" and not (len(x) > 3 and x[3] and "Some" in x[3])
+
+
+def _ao_payload(x):
+    """expression is the payload of `Some` of such a field: (<..>.append_only as Some).0"""
+    return x[0] in ("path", "proj") and len(x[2]) >= 2 and x[2][-2] == "append_only" and x[2][-1] == "0" and len(x) > 3 and "Some" in (x[3] or [])
+
+
+def _opt_bool_const(x):
+    """promoted / aggregate Option<bool> constant -> ('Some', b) | ('None',) | None"""
+    v = x[2] if x[0] == "promoted" else (x if x[0] == "agg" else None)
+    if x[0] == "promoted" and v and v[0] == "adt":
+        if v[2] == "Some" and v[3] and v[3][0][0] == "const":
+            return ("Some", v[3][0][1])
+        if v[2] == "None":
+            return ("None",)
+    return None
+
+
+AO_PREDICATES = {}   # fn path -> bool value it returns when append_only == Some(true) (filled by C15.compute_ao_helpers)
+
+
+def eval_under_append_only(e):
+    """value of expression e (a tree from flow.expr_of) when the append_only field it reads is Some(true); None if e is
+    not a function of that field alone. Covers the idioms `x == Some(true)`, `x != ..`, `if let Some(true) = x`,
+    `matches!(x, Some(true))`, `x.unwrap_or(c)`, `x.unwrap_or_default()`, `x.is_some()`, `x.is_none()`, `x == None`."""
+    if e[0] == "un" and e[1] == "Not":
+        v = eval_under_append_only(e[2])
+        return None if v is None else (not v)
+    if e[0] == "discr" and _ao_path(e[1]):
+        return 1                      # discriminant of Some
+    if _ao_payload(e):
+        return True
+    if e[0] == "call" and e[1] in AO_PREDICATES:
+        return AO_PREDICATES[e[1]]
+    if e[0] == "call":
+        c, args = e[1], e[2]
+        m = re.search(r"PartialEq(>)?::(eq|ne)$", c)
+        if m and len(args) == 2:
+            for a, b in ((args[0], args[1]), (args[1], args[0])):
+                k = _opt_bool_const(b)
+                if _ao_path(a) and k is not None:
+                    r = (k == ("Some", True))
+                    return r if m.group(2) == "eq" else (not r)
+            return None
+        if args and _ao_path(args[0]):
+            if re.search(r"Option::<T>::unwrap_or$", c) or re.search(r"Option::<T>::unwrap_or_default$", c) or re.search(r"Option::<T>::is_some$", c):
+                return True
+            if re.search(r"Option::<T>::is_none$", c):
+                return False
+    return None
+
+
+def append_only_successor(body, bb):
+    """if block bb ends in a switch decided by the value of an append_only field, the successor taken when that field
+    is Some(true); else None"""
     t = body.term(bb)
     if t["k"] != "switch":
         return None
-    e = flow.expr_of(body, t["discr"])
-    neg = False
-    while e[0] == "un" and e[1] == "Not":
-        neg = not neg
-        e = e[2]
-    if e[0] != "call" or not re.search(r"PartialEq>::eq$|PartialEq::eq$", e[1]):
+    e = flow.expr_of(body, t["discr"], bb)
+    if e[0] == "path" and e[1][0] == "local" and not e[2]:
+        # discriminant local computed in this block: `_d = discriminant(place)`
+        for s in body.blocks[bb]["s"]:
+            if s[0] == "=" and s[1] == [e[1][1]] and s[2][0] == "discr":
+                e = ("discr", flow.place_expr(body, s[2][1]))
+    v = eval_under_append_only(e)
+    if v is None:
         return None
-    a, b = e[2][0], e[2][1]
+    iv = int(v)
+    for val, x in t["targets"]:
+        if str(val) == str(iv):
+            return x
+    return t["otherwise"]
 
-    def is_ao(x):
-        return x[0] in ("path", "proj") and x[2] and x[2][-1] == "append_only"
 
-    def is_some_true(x):
-        if x[0] == "promoted":
-            v = x[2]
-            return bool(v) and v[0] == "adt" and v[2] == "Some" and v[3] and v[3][0] == ("const", True)
-        return False
-
-    if not ((is_ao(a) and is_some_true(b)) or (is_ao(b) and is_some_true(a))):
+def is_append_only_test(body, bb):
+    """block bb ends in a switch decided by an append_only field; returns (successor when it is Some(true), another
+    successor) or None"""
+    s = append_only_successor(body, bb)
+    if s is None:
         return None
-    zero = None
-    for v, x in t["targets"]:
-        if v == "0":
-            zero = x
-    other = t["otherwise"]
-    if zero is None:
-        return None
-    tt, ft = (other, zero) if not neg else (zero, other)
-    return (tt, ft)
+    others = [x for x in body.succ(bb) if x != s]
+    return (s, others[0] if others else s)
 
 
 def returns_err_only(body, start, limit=60):
